@@ -52,12 +52,13 @@ FewIns == { I("addi", "t0", "t1", "zero", -7, 0), I("lw", "a0", "sp", "zero", 8,
 ASSUME {i.op : i \in AllIns} = AllOps
 
 (* decorations of an instruction line (the harness renders them) *)
-Decos == {"plain", "indent2", "tab", "comment", "upper", "dollar", "commaspace", "nospace", "zeropad", "all"}
-FewDecos == {"plain", "comment", "indent2", "zeropad"}
+Decos == {"plain", "indent2", "tab", "comment", "commentcolon", "upper", "dollar", "commaspace", "nospace", "zeropad", "all"}
+FewDecos == {"plain", "comment", "commentcolon", "indent2", "zeropad"}
 
 BadForms == {"missing_operand", "extra_operand", "unknown_register", "unknown_mnemonic", "hex_immediate",
              "word_immediate", "huge_immediate", "truncated_offset", "unclosed_offset", "garbage_after_register",
-             "no_paren_offset", "empty_operand", "register_as_immediate", "lone_comma"}
+             "no_paren_offset", "empty_operand", "register_as_immediate", "lone_comma",
+             "huge_offset", "huge_store_offset", "huge_addi", "huge_negative"}
 SilentForms == {"label_with_comment", "tab_separator", "label_with_space", "colon_only", "digit_label"}
 
 Line(k, ins, deco, name, form) == [k |-> k, ins |-> ins, deco |-> deco, name |-> name, form |-> form]
